@@ -3,6 +3,7 @@
 generate(repo) walks, with Python `ast`, every loop of the reader modules
 
     dataio/tokenizer.py  nexusprocessing.py  newickreader.py  nexusreader.py  nexusyielder.py
+    newickyielder.py
 
 and emits one Coq record per *reader loop* (every `while`, and every `for .. in itertools.count()`,
 which is a `while True` in disguise).  A record holds only facts read off the syntax:
@@ -49,7 +50,7 @@ import ast
 import hashlib
 import os
 
-FILES = ["tokenizer.py", "nexusprocessing.py", "newickreader.py", "nexusreader.py", "nexusyielder.py"]
+FILES = ["tokenizer.py", "nexusprocessing.py", "newickreader.py", "nexusreader.py", "nexusyielder.py", "newickyielder.py"]
 
 PRIMS = {
     "next_token": ("FNextToken", False),
@@ -666,7 +667,7 @@ def cs(s):
 
 
 HEADER = '''(* GENERATED by py/dv/gen_readerloops.py from dataio/{tokenizer,nexusprocessing,newickreader,
-   nexusreader,nexusyielder}.py -- do not edit.  One record per reader loop; see the generator's
+   nexusreader,nexusyielder,newickyielder}.py -- do not edit.  One record per reader loop; see the generator's
    docstring for the meaning of every field. *)
 From Coq Require Import ZArith List String Bool.
 Import ListNotations.
